@@ -40,6 +40,26 @@ import (
 // macVerdict recomputes the authenticator of a SCION/UDP packet as received.
 // present: the packet carries an authenticator option with the given SPI and the
 // time service's algorithm; valid: its MAC equals the recomputed one.
+// scionL4Offset walks the SCION common header and the hop-by-hop / end-to-end extension
+// headers of an encoded packet by their length fields and returns where the upper-layer
+// header starts (-1 when the lengths do not fit the packet).
+func scionL4Offset(raw []byte) int {
+	if len(raw) < 12 {
+		return -1
+	}
+	next, off := raw[4], int(raw[5])*4
+	for next == 200 || next == 201 {
+		if off+2 > len(raw) {
+			return -1
+		}
+		next, off = raw[off], off+(int(raw[off+1])+1)*4
+	}
+	if off > len(raw) {
+		return -1
+	}
+	return off
+}
+
 func macVerdict(raw []byte, keyOf func(p *scionPkt) []byte, wantSPI uint32) (present, valid bool) {
 	p := parseSCION(raw)
 	if !p.ok || !p.isUDP || !p.hasE2E {
@@ -57,13 +77,21 @@ func macVerdict(raw []byte, keyOf func(p *scionPkt) []byte, wantSPI uint32) (pre
 	if spi != wantSPI || algo != scion.PacketAuthAlgorithm {
 		return false, false
 	}
-	if int(p.udp.Length) > len(raw) || p.udp.Length < 8 {
+	// what is authenticated is the upper-layer datagram that stands in the packet: the UDP
+	// header the extension headers lead to and everything behind it (not "the last
+	// UDP-length bytes", which need not be the bytes a receiver goes on to decode)
+	off := scionL4Offset(raw)
+	if off < 0 {
+		return true, false
+	}
+	l4 := len(raw) - off
+	if l4 < 8 || int(p.udp.Length) != l4 {
 		return true, false
 	}
 	aux := make([]byte, spao.MACBufferSize)
 	out := make([]byte, scion.PacketAuthMACLen)
 	_, err = spao.ComputeAuthCMAC(spao.MACInput{Key: key, Header: slayers.PacketAuthOption{EndToEndOption: opt},
-		ScionLayer: &p.scn, PldType: slayers.L4UDP, Pld: raw[len(raw)-int(p.udp.Length):]}, aux, out)
+		ScionLayer: &p.scn, PldType: slayers.L4UDP, Pld: raw[len(raw)-l4:]}, aux, out)
 	if err != nil {
 		return true, false
 	}
@@ -200,7 +228,21 @@ func c13World(t *testing.T, r *simcore.Run) any {
 			spiPat = []byte{0x00, 0x02, 0x00, 0x7b}
 		}
 		at := bytes.Index(mut, spiPat)
-		switch tp.Intn(12, "tkind") {
+		switch tp.Intn(13, "tkind") {
+		case 12: // a forged UDP datagram (same ports, same length, other timestamps) put in front of the genuine one
+			off := scionL4Offset(raw)
+			if at < 0 || off < 0 || int(p.udp.Length) != len(raw)-off || len(p.udp.Payload) < 48 {
+				return false, nil
+			}
+			kind = "forged-datagram-in-front-of-the-genuine-one"
+			r.Probe("forged-datagram-in-front-of-the-genuine-one")
+			forged := append([]byte(nil), raw[off:]...)
+			forged[8+32+3] ^= 0x20 // NTP receive timestamp: 32 s
+			forged[8+40+3] ^= 0x20 // NTP transmit timestamp
+			mut = append(append(append([]byte(nil), raw[:off]...), forged...), raw[off:]...)
+			pl := int(mut[6])<<8 | int(mut[7])
+			pl += len(forged)
+			mut[6], mut[7] = byte(pl>>8), byte(pl)
 		case 11: // the authenticated timestamp / sequence number bytes that follow the algorithm byte
 			if at < 0 {
 				return false, nil
